@@ -1340,6 +1340,44 @@ def rule_r8(facts, rep, rid="C01-R8"):
     rep.floor(rid, "trimming sites in the printers", n, 4)
 
 
+# ------------------------------------------------------------------------------------------------------------ R10 builder cursor typestate
+
+def rule_r10(facts, rep, rid="C01-R10"):
+    rep.rule(rid, "builder cursor typestate in SectionsBuilder::block: an arm that switches the builder to insert-as-child (set_insert(true)) before walking a container's items restores the "
+                  "cursor (set_id(saved)) AND the flag (set_insert(false)) after the loop - the loop may add nothing (all items empty), and a flag left set makes the next block a child of "
+                  "the container (a paragraph after `1.` is printed as a list item)")
+    f = facts.fn("SectionsBuilder::block")
+    rep.saw_fn(f)
+    ms = A.matches_on(f, "DocumentBlock")
+    if not ms:
+        rep.anchor_missing(rid, "match on DocumentBlock in SectionsBuilder::block")
+        return
+    n = 0
+    for vs, arm in A.arms_of(ms[0]):
+        body = arm["body"]
+        sets = [x for x in fb.walk(body, into_closures=False) if x.get("k") == "mcall" and x["name"] == "set_insert" and (fb.callee(x) or "").endswith("GraphBuilder::set_insert")]
+        on = [x for x in sets if fb.show(x["args"][0]) == "true"]
+        if not on:
+            continue
+        n += 1
+        vname = "+".join(fb.last_seg(v) for v in vs)
+        key = "%s|arm:%s|insert-flag-restored" % (f.def_, vname)
+        loops = [x for x in fb.walk(body) if x.get("k") == "loop"]
+        end = max([(x.get("s") or [0, 0])[1] for x in loops] or [0])
+        off_after = [x for x in sets if fb.show(x["args"][0]) == "false" and (x.get("s") or [0])[0] > end]
+        setid_after = [x for x in fb.walk(body, into_closures=False) if x.get("k") == "mcall" and x["name"] == "set_id" and (x.get("s") or [0])[0] > end]
+        # a fresh sub-builder for the children (quote) does not touch the outer flag at all
+        if loops and off_after and setid_after:
+            rep.ok(rid, key, "after the item loop: set_id(saved); set_insert(false)", loc(f, off_after[0]))
+        elif not loops:
+            rep.violation(rid, key, "the %s arm sets insert-as-child without walking any items" % vname, loc(f, on[0]))
+        else:
+            rep.violation(rid, key, "after walking the items of a %s the builder's insert-as-child flag is not reset (set_insert(false) %s, set_id %s): when every item is empty nothing was "
+                          "inserted, the flag is still set, and the block that follows the list becomes its child - a paragraph turns into a list item" % (
+                              vname, "present" if off_after else "missing", "present" if setid_after else "missing"), loc(f, on[0]))
+    rep.floor(rid, "container arms that switch the insert flag", n, 2)
+
+
 def run(facts, rep, tier):
     rule_r1(facts, rep)
     rule_r1b(facts, rep)
@@ -1351,6 +1389,7 @@ def run(facts, rep, tier):
     rule_r6(facts, rep)
     rule_r7(facts, rep)
     rule_r8(facts, rep)
+    rule_r10(facts, rep)
     rep.rule("C01-R9", "= C07-R4: continuation lines of a list item are indented by the width of the marker actually printed; a fixed indent lets the later lines of items with wider markers "
                        "(100., 1000.) fall out of the item, i.e. they are merged into a neighbour or turn into another kind of block.")
     from . import c07
